@@ -157,7 +157,13 @@ class LLOneParser:
         for production in nullable_productions:
             if production.head not in llone_parsing_table:
                 llone_parsing_table[production.head] = {}
-            for first in follow_set.get(production.head, set()):
+            firsts = set(follow_set.get(production.head, set()))
+            # A nullable body can also begin with what its symbols begin with
+            for first in self._get_first_set_production(production,
+                                                        first_set):
+                if first != Epsilon():
+                    firsts.add(first)
+            for first in firsts:
                 if first not in llone_parsing_table[production.head]:
                     llone_parsing_table[production.head][first] = []
                 llone_parsing_table[production.head][first].append(
